@@ -273,7 +273,7 @@ macro_rules! dispatch_impl {
                         ("abduce", _) => op_abduce::<T, U, C, X, Y, $V>(style, false, x),
                         _ => op_abduce::<T, U, C, X, Y, $V>(style, true, x),
                     }; 2 2 A2 B2 NA2 NB2, 2 3 A2 B3 NA2 NB3, 3 2 A3 B2 NA3 NB2, 3 3 A3 B3 NA3 NB3,
-                       4 2 A4 B2 NA4 NB2, 4 3 A4 B3 NA4 NB3)
+                       4 2 A4 B2 NA4 NB2, 4 3 A4 B3 NA4 NB3, 5 2 A5 B2 NA5 NB2, 2 5 A2 B5 NA2 NB5)
                 }
                 "mbr2d" | "deduce2d" | "deduce_with2d" => {
                     t2_2d!($V, fam, d(0), d(1), d(2), T, U, C, X, Y, match c.op {
